@@ -25,10 +25,15 @@ impl Tier {
     }
     /// pick a count by tier
     pub fn pick(self, quick: u64, thorough: u64) -> u64 {
-        match self {
+        let n = match self {
             Tier::Quick => quick,
             Tier::Thorough => thorough,
-        }
+        };
+        // development aid (coverage measurement, tools/coverage.sh): VERIF_DEV_SCALE=<k> divides every case count by k.
+        // Never set by the registered commands.
+        static SCALE: std::sync::OnceLock<u64> = std::sync::OnceLock::new();
+        let k = *SCALE.get_or_init(|| std::env::var("VERIF_DEV_SCALE").ok().and_then(|s| s.parse().ok()).filter(|k| *k >= 1).unwrap_or(1));
+        (n / k).max(1)
     }
 }
 
